@@ -29,7 +29,7 @@ THEOREMS = ["C14_queries_wf", "C14_query_bytes", "C14_reports_wf", "C14_report_b
             "C14_run_attempts", "C14_run_stream", "C14_fsm_step", "C14_report_bad_length", "C14_report_bad_size",
             "C14_report_bad_version", "C14_report_wrong_session", "C14_report_unexpected_in_sync",
             "C14_report_unexpected_in_store", "C14_report_prefix_length", "C14_report_eod_session", "C14_report_updates",
-            "C14_update_codes", "C14_Q_meaning", "C14_no_report_for_error", "C14_bytes", "C14_texts_bytes"]
+            "C14_update_codes", "C14_Q_meaning", "C14_no_report_for_error", "C14_bytes", "C14_texts_bytes", "C14_serial_query_translated", "C14_reset_query_translated", "C14_send_pdu_translated", "C14_error_from_network_translated"]
 CORPUS = os.path.join(vlib.VERIF, "corpus", "C14")
 FAULTS = ["bad_len_small", "bad_len_big", "bad_len_type", "bad_type", "bad_version", "bad_flags", "dup_announce",
           "unknown_withdraw", "eod_session", "cr_session", "unexpected_pdu", "prefix_len_big", "garbage", "err_other",
